@@ -301,6 +301,7 @@ pub mod sampled {
             let b = bwt(text, full);
             let ls = less(&b, &alphabet);
             let occ = Occ::new(&b, c.k, &alphabet);
+            ensure!(SuffixArray::get(full, n).is_none() && SuffixArray::get(full, n + 7).is_none(), "SuffixArray::get of the full array beyond its end (index {} / {}) is not None; n={}", n, n + 7, n);
             let sampled = full.sample(text, &b, &ls, &occ, c.s as usize);
             ensure!(SuffixArray::len(&sampled) == n, "sampled: text {} s={} k={}: len()={} expected {}", show(text), c.s, c.k, SuffixArray::len(&sampled), n);
             for i in 0..n {
